@@ -24,13 +24,16 @@ _V = {}
 def gen_case(ctx, i):
     r = ctx.rng(16, i)
     F = int(r.integers(1, 7))
+    big = (i % 10 == 7)  # a large project: 25-112 ground-truth instances (counts n for which n * (1/n) != 1 in floating point among them)
+    if big:
+        F = int(r.integers(5, 9))
     n_nodes = int(r.integers(2, 6))
     noise = float(r.choice([0, 0.5, 2, 10]))
     nan_class = str(r.choice(["none", "none", "some", "heavy"]))
     manip = sorted(set(r.choice(["none", "missing", "extra", "duplicate"], size=int(r.integers(1, 3))).tolist()))
     frames = []
     for f in range(F):
-        A = int(r.integers(1, 5))
+        A = int(r.integers(5, 15)) if big else int(r.integers(1, 5))
         gts, prs = [], []
         for a in range(A):
             c = np.array([60.0 + 130 * a, 60.0 + 20 * f]) + r.uniform(-10, 10, 2)
@@ -63,6 +66,18 @@ def directed(ctx):
     g2 = g + [200.0, 0.0]
     yield {"i": -1, "n_nodes": 3, "noise": 0.0, "nan_class": "none", "manip": ["duplicate"], "seed": 1,
            "frames": [{"gt": [g, g2], "pr": [{"pts": g + 9.0, "score": 0.9, "of": 0}, {"pts": g.copy(), "score": 0.5, "of": 0}]}]}
+    yield from directed_counts()
+
+
+def directed_counts():
+    # totals n of ground-truth instances for which n * (1.0 / n) != 1.0 (49, 98, 103, 107, 161): recall must still reach exactly 1
+    for t, per_frame in enumerate(([7] * 7, [14] * 7, [13] * 7 + [12], [14] * 7 + [9], [21] * 7 + [14])):
+        r = np.random.default_rng(1600 + t)
+        frames = []
+        for f, A in enumerate(per_frame):
+            gts = [np.array([60.0 + 130 * a, 60.0 + 20 * f]) + r.uniform(-25, 25, (3, 2)) for a in range(A)]
+            frames.append({"gt": gts, "pr": [{"pts": g + r.normal(0, 2.0, (3, 2)), "score": float(np.round(r.random(), 3)), "of": a} for a, g in enumerate(gts)]})
+        yield {"i": -10 - t, "n_nodes": 3, "noise": 2.0, "nan_class": "none", "manip": ["none"], "frames": frames, "seed": 16 + t}
 
 
 def cases(ctx):
@@ -197,6 +212,8 @@ def check(ctx, case):
         subsets.append({all_ids[j] for j in r.choice(len(all_ids), k, replace=False)})
     if ctx.tier == "quick":
         subsets = subsets[:10]
+    elif len(subsets) > 30:
+        subsets = [subsets[j] for j in sorted(r.choice(len(subsets), 30, replace=False).tolist())]
     matched = {}
     if has_pairs:
         from sleap_nn.evaluation import compute_oks
